@@ -40,14 +40,11 @@ func runC07(x *mc.X) {
 		x.Skip()
 	}
 	nVar := mc.Pick(x, "target-variants", []int{0, 1, 3})
+	rounds := mc.Pick(x, "rounds", []int{1, 2})
 
 	w := world.New(world.Opt{})
 	defer w.Close()
-	type ent struct {
-		url string
-		hdr []string
-		tok string
-	}
+	type ent = c07Ent
 	var ents []*ent
 	store := func(url string, vary string, hdr ...string) {
 		h := H("Cache-Control", "max-age=100000")
@@ -68,6 +65,42 @@ func runC07(x *mc.X) {
 	for _, u := range []string{c07Sib, c07Host, c07Port, c07HTTPS} {
 		store(u, "")
 	}
+	unsafe := !c07Safe[method]
+	success := status >= 200 && status < 400
+	if rounds == 2 && !(unsafe && success && nVar > 0) {
+		x.Skip() // a second round only where the first one must invalidate something
+	}
+	for round := 1; round <= rounds; round++ {
+		if round == 2 {
+			// store everything again, then repeat the unsafe request
+			ents = nil
+			switch nVar {
+			case 1:
+				store(c07T, "")
+			case 3:
+				for _, a := range []string{"1", "2", "3"} {
+					store(c07T, "X-A", "X-A", a)
+				}
+			}
+			for _, u := range []string{c07Sib, c07Host, c07Port, c07HTTPS} {
+				store(u, "")
+			}
+		}
+		c07Round(x, w, round, method, status, target, locField, loc, nVar, &ents)
+		if x.Failed() {
+			return
+		}
+	}
+}
+
+type c07Ent struct {
+	url string
+	hdr []string
+	tok string
+}
+
+func c07Round(x *mc.X, w *world.W, round int, method string, status int, target, locField, loc string, nVar int, entsp *[]*c07Ent) {
+	ents := *entsp
 	world.Advance(secs(5))
 
 	var h [][2]string
@@ -111,7 +144,7 @@ func runC07(x *mc.X) {
 				if e.url == c07Sib {
 					what = "same-origin " + locField + " URI"
 				}
-				x.Failf(fmt.Sprintf("not invalidated: %s method=%s", what, methodClass(method)), "after %s %s -> %d %v, GET %s %v is still answered from the store without validation: %s", method, target, status, h, e.url, e.hdr, o)
+				x.Failf(fmt.Sprintf("not invalidated: %s method=%s%s", what, methodClass(method), ifs(round > 1, " (second invalidation of the same target)")), "after %s %s -> %d %v, GET %s %v is still answered from the store without validation: %s", method, target, status, h, e.url, e.hdr, o)
 			}
 		case e.url == c07Host || e.url == c07Port || e.url == c07HTTPS:
 			if !servedOld {
